@@ -250,6 +250,7 @@ def check_arc(g, acc):
             fd = (a.point(t + h) - a.point(t - h)) / (2 * h)
             if not abs(fd - a.derivative(t, 1)) <= 1e-6 * size * max(1.0, abs(k) ** 3):
                 acc.violation('derivative_not_derivative_of_point', sig, dict(case, t=t), observed=a.derivative(t, 1), expected=fd)
+    check_strict(spec, a, region, sig, case, acc)
     # approximations
     for fn, cls in (('as_cubic_curves', CubicBezier), ('as_quad_curves', QuadraticBezier)):
         for n in (1, 2, 3, 4):
@@ -267,6 +268,65 @@ def check_arc(g, acc):
                 break
 
 
+def check_strict(spec, a, region, sig, case, acc, exact_fit_is_exact=False):
+    """the same six values with autoscale_radius=False (by keyword and by position), also with the sign of one radius
+    component flipped (radii are taken in absolute value, F.6.6 step 1): when an ellipse fits it is the same arc,
+    when none fits the constructor refuses (ValueError) instead of enlarging; at an exact fit in floating point
+    either answer is acceptable unless the fit is exact in exact arithmetic (dyadic family)"""
+    start, radius, rot, la, sw, end = spec
+    forms = [('keyword', lambda r_: Arc(start, r_, rot, la, sw, end, autoscale_radius=False)),
+             ('positional', lambda r_: Arc(start, r_, rot, la, sw, end, False)),
+             ('keyword_true', lambda r_: Arc(start, r_, rot, la, sw, end, autoscale_radius=True))]
+    for how, mk in forms:
+        for rname, r_ in (('as_given', radius), ('rx_negated', complex(-radius.real, radius.imag)), ('ry_negated', complex(radius.real, -radius.imag))):
+            if rname != 'as_given' and (radius.real == 0 or radius.imag == 0):
+                continue
+            acc.evaluations += 1
+            rr = outcome(lambda: mk(r_))
+            ssig = dict(sig, autoscale_radius=how != 'keyword_true', given=how, radius=rname)
+            scase = dict(case, strict=[how, rname])
+            if how == 'keyword_true' or region == 'fits' or (region == 'exact_fit' and exact_fit_is_exact):
+                if rr[0] != 'ok':
+                    acc.violation('strict_arc_refused_although_an_ellipse_fits' if how != 'keyword_true' else 'constructor_raises', dict(ssig, exc=rr[1]), scase, observed=rr)
+                    continue
+                b = rr[1]
+                tol = 1e-9 * (abs(start - end) + abs(a.radius))
+                same = abs(b.center - a.center) <= tol and abs(b.radius - a.radius) <= tol and abs(b.theta - a.theta) <= 1e-7 and \
+                    abs(b.delta - a.delta) <= 1e-7 and abs(b.point(0.3) - a.point(0.3)) <= tol and b.radius.real >= 0 and b.radius.imag >= 0
+                if not same:
+                    acc.violation('strict_arc_differs_from_default_arc', ssig, scase,
+                                  observed={'center': b.center, 'radius': b.radius, 'theta': b.theta, 'delta': b.delta},
+                                  expected={'center': a.center, 'radius': a.radius, 'theta': a.theta, 'delta': a.delta})
+            elif region == 'too_small':
+                if rr[0] == 'ok' or not str(rr[1]).startswith('ValueError'):
+                    acc.violation('strict_arc_not_refused_although_no_ellipse_fits', ssig, scase, observed=repr(rr)[:200], expected='ValueError')
+
+
+def dyadic_exact_fit_grid():
+    """half ellipses whose numbers are small dyadic rationals and whose rotation is 0: lambda == 1 in exact arithmetic
+    AND in floating point, so the strict constructor must accept them"""
+    for start, end, radius in ((0j, 4 + 0j, 2 + 1j), (1 + 1j, 1 + 5j, 3 + 2j), (-2 + 0.5j, 6 + 0.5j, 4 + 4j), (0.25j, 0.25j + 1, 0.5 + 8j), (3 - 3j, -5 - 3j, 4 + 0.125j)):
+        for fl in FLAGS:
+            yield ('dyadic', [start.real, start.imag], [end.real, end.imag], [radius.real, radius.imag], list(fl))
+
+
+def check_dyadic(g, acc):
+    from fractions import Fraction as F
+    _, st, en, ra, fl = g
+    start, end, radius = complex(*st), complex(*en), complex(*ra)
+    lam = (F(en[0] - st[0]) / 2) ** 2 / F(ra[0]) ** 2 + (F(en[1] - st[1]) / 2) ** 2 / F(ra[1]) ** 2
+    assert lam == 1, lam
+    spec = (start, radius, 0, fl[0], fl[1], end)
+    case = {'grid': list(g)}
+    acc.case(case, cls='exact_fit_in_exact_arithmetic/la%d/sw%d' % tuple(fl))
+    sig = {'region': 'exact_fit_in_exact_arithmetic', 'large_arc': bool(fl[0]), 'sweep': bool(fl[1]), 'rotated': False}
+    r = outcome(lambda: Arc(*spec))
+    if r[0] != 'ok':
+        acc.violation('constructor_raises', dict(sig, exc=r[1]), case, observed=r)
+        return
+    check_strict(spec, r[1], 'exact_fit', sig, case, acc, exact_fit_is_exact=True)
+
+
 def shards(tier, seed):
     return [{'k': k} for k in range(32)]
 
@@ -276,6 +336,9 @@ def run_shard(desc, tier, seed):
     for i, g in enumerate(itertools.chain(grid(tier), center_grid(tier), near_grid(tier), collide_grid(tier))):
         if i % 32 == desc['k']:
             check_arc(g, acc)
+    for i, g in enumerate(dyadic_exact_fit_grid()):
+        if i % 32 == desc['k']:
+            check_dyadic(g, acc)
     return acc
 
 
@@ -291,7 +354,8 @@ def expected_classes(tier):
 
 def space(tier, seed):
     th = tier == 'thorough'
-    return {'directions': DIRS_T if th else DIRS[:8], 'chord_lengths': DISTS_T if th else DISTS, 'radii_relative_to_half_chord': RADII,
+    return {'strict_constructor': 'every arc also with autoscale_radius=False (keyword, positional) and True, with rx or ry negated; %d dyadic exact-fit half ellipses' % len(list(dyadic_exact_fit_grid())),
+            'directions': DIRS_T if th else DIRS[:8], 'chord_lengths': DISTS_T if th else DISTS, 'radii_relative_to_half_chord': RADII,
             'rotations': ROTS_T if th else ROTS, 'start_points': STARTS_T if th else [STARTS_T[0]], 'flags': FLAGS, 't_grid': TS, 'derivative_orders': [1, 2, 3, 4, 5], 'arcs': len(list(grid(tier))),
             'centre_built_arcs (radii x rotation x start angle x span incl. 180 +- tiny)': len(list(center_grid(tier)))}
 
@@ -299,6 +363,9 @@ def space(tier, seed):
 def replay(case):
     acc = core.ReplayAcc()
     g = case['grid']
+    if g[0] == 'dyadic':
+        check_dyadic(tuple(g), acc)
+        return acc.vlist
     if g[0] == 'collide':
         check_arc((g[0], g[1], tuple(g[2]), g[3]), acc)
     elif g[0] == 'near':
